@@ -339,6 +339,11 @@ def _pool_init(env):
 
     logging.disable(logging.CRITICAL)
     enter_worker_dir()
+    if not os.environ.get("VERIF_DEBUG"):
+        # native wpilib / ntcore code prints start-up chatter straight to fd 1 / fd 2
+        dn = os.open(os.devnull, os.O_WRONLY)
+        os.dup2(dn, 1)
+        os.dup2(dn, 2)
 
 
 def _pool_call(args):
